@@ -1300,4 +1300,167 @@ Proof.
   - intros; lia.
 Qed.
 
+(* ---------- look-around: semantics side ---------- *)
+
+Lemma goback_in_backs : forall f cnt ix j, goback cx f cnt ix = GBOk j -> In j (backs cx f ix).
+Proof.
+  induction f as [|f IH]; intros cnt ix j; cbn [goback backs].
+  - destruct (N.eqb cnt 0); [intros H; inversion H; left; auto|discriminate].
+  - destruct (N.eqb cnt 0); [intros H; inversion H; left; auto|].
+    destruct ix as [|ix']; [discriminate|]. cbn [Nat.eqb].
+    destruct (prev_cp (c_text cx) (S ix')); [|discriminate]. intros H. right. eapply IH; eauto.
+Qed.
+
+Lemma dist_inj_l i j k n : dist cs i k n -> dist cs j k n -> i = j.
+Proof.
+  assert (Hx : forall a b, a < b -> dist cs a k n -> dist cs b k n -> False).
+  { intros a b Hlt Da Db. destruct (dist_bnd cs W _ _ _ Da) as (Ba & _ & _). destruct (dist_bnd cs W _ _ _ Db) as (Bb & _ & _).
+    destruct (bnd_dist cs W (b - a) a b ltac:(lia) Ba Bb ltac:(lia)) as (d & Dd).
+    pose proof (dist_trans cs _ _ _ _ _ Dd Db) as Dt. pose proof (dist_count cs W _ _ _ Da _ Dt).
+    assert (d = 0) by lia. subst. inversion Dd; subst. lia. }
+  intros Di Dj. destruct (Nat.lt_trichotomy i j) as [Hl|[He|Hg]]; auto; exfalso; eauto.
+Qed.
+
+Lemma first_some_none {A B} (f : A -> option B) l : (forall j, In j l -> f j = None) -> first_some f l = None.
+Proof. induction l as [|x r IH]; intros H; cbn [first_some]; auto. rewrite H by (left; auto). apply IH. intros; apply H; right; auto. Qed.
+
+Lemma first_some_unique {B} (f : nat -> option B) l j0 : In j0 l ->
+  (forall j, In j l -> j <> j0 -> f j = None) -> first_some f l = f j0.
+Proof.
+  induction l as [|x r IH]; intros Hin Hn; [destruct Hin|]. cbn [first_some].
+  destruct (Nat.eq_dec x j0) as [->|Hne].
+  - destruct (f j0) eqn:E; auto. apply first_some_none. intros j Hj.
+    destruct (Nat.eq_dec j j0) as [->|Hj0]; auto. apply Hn; auto. right; auto.
+  - rewrite (Hn x) by (auto; left; auto). apply IH.
+    + destruct Hin; [contradiction|auto].
+    + intros j Hj Hj0. apply Hn; auto. right; auto.
+Qed.
+
+Lemma find_all_true {A} (p : A -> bool) l : (forall x, In x l -> p x = true) -> find p l = hd_error l.
+Proof. destruct l as [|a l]; intros H; cbn; auto. now rewrite H by (left; auto). Qed.
+
+Lemma try_alt_const x gx ix caps0 : wfe x -> zok x -> const_size x = true -> st_ok cs (ix, caps0) ->
+  first_some (fun j => first_ending (sem cx x fuel gx (j, caps0)) ix) (backs cx ix ix) =
+  match goback cx ix (min_size x) ix with
+  | GBOk j => hd_error (sem cx x fuel gx (j, caps0))
+  | _ => None
+  end.
+Proof.
+  intros Hw Hz Hc [Bix Hcaps]. cbn [fst snd] in *.
+  pose proof (goback_sound cs W cx Htext ix (min_size x) ix Bix (le_n _)) as G.
+  pose proof (backs_ok cs W cx Htext Hlen ix ix Bix) as Hbk. rewrite Forall_forall in Hbk.
+  assert (Key : forall j s', bnd cs j -> In s' (sem cx x fuel gx (j, caps0)) ->
+                 exists m, N.of_nat m = min_size x /\ dist cs j (fst s') m).
+  { intros j s' Bj Hin.
+    destruct (sem_sound cs W cx Htext Hlen x Hw fuel gx (j, caps0) s' (conj Bj Hcaps) Hin) as (m & [_ Hd] & _ & Hex).
+    exists m. split; auto. }
+  destruct (goback cx ix (min_size x) ix) as [j0| |] eqn:Eg.
+  - destruct G as (n0 & Hn0 & D0).
+    rewrite (first_some_unique _ _ j0).
+    + unfold first_ending. apply find_all_true. intros s' Hin.
+      destruct (dist_bnd cs W _ _ _ D0) as (Bj0 & _ & _).
+      destruct (Key _ _ Bj0 Hin) as (m & Hm & Dm). assert (m = n0) by lia. subst m.
+      apply Nat.eqb_eq. eapply dist_fun; eauto.
+    + eapply goback_in_backs; eauto.
+    + intros j Hj Hne. unfold first_ending. destruct (find _ _) as [s'|] eqn:Ef; auto. exfalso.
+      apply find_some in Ef as [Hin He]. apply Nat.eqb_eq in He.
+      destruct (Key _ _ (Hbk _ Hj) Hin) as (m & Hm & Dm). assert (m = n0) by lia. subst m. rewrite He in Dm.
+      apply Hne. eapply dist_inj_l; eauto.
+  - apply first_some_none. intros j Hj. unfold first_ending. destruct (find _ _) as [s'|] eqn:Ef; auto. exfalso.
+    apply find_some in Ef as [Hin He]. apply Nat.eqb_eq in He.
+    destruct (Key _ _ (Hbk _ Hj) Hin) as (m & Hm & Dm). rewrite He in Dm. specialize (G _ _ Dm). lia.
+  - destruct G.
+Qed.
+
+Definition lb_found (c : expr) (g ix : nat) (caps0 : list val) : option sst :=
+  let try_alt (a : expr) (ga : nat) : option sst :=
+    first_some (fun j => first_ending (sem cx a fuel ga (j, caps0)) ix) (backs cx ix ix) in
+  match c with
+  | Alt es =>
+      (fix go (g : nat) (l : list expr) : option sst :=
+         match l with
+         | [] => None
+         | x :: r => match try_alt x g with Some s => Some s | None => go (g + ngroups x) r end
+         end) g es
+  | _ => try_alt c g
+  end.
+
+Lemma sem_lb c g ix caps0 : sem cx (LookAround c LookBehind) fuel g (ix, caps0) =
+  match lb_found c g ix caps0 with Some s' => [(ix, snd s')] | None => [] end.
+Proof. reflexivity. Qed.
+Lemma sem_lbn c g ix caps0 : sem cx (LookAround c LookBehindNeg) fuel g (ix, caps0) =
+  match lb_found c g ix caps0 with Some _ => [] | None => [(ix, caps0)] end.
+Proof. reflexivity. Qed.
+
+Lemma lb_found_const c g ix caps0 : wfe c -> zok c -> const_size c = true -> st_ok cs (ix, caps0) ->
+  lb_found c g ix caps0 =
+  match goback cx ix (min_size c) ix with
+  | GBOk j => hd_error (sem cx c fuel g (j, caps0))
+  | _ => None
+  end.
+Proof.
+  intros Hw Hz Hc Hok.
+  assert (Hgen : forall c', (forall es, c' <> Alt es) -> wfe c' -> zok c' -> const_size c' = true ->
+            lb_found c' g ix caps0 = match goback cx ix (min_size c') ix with
+                                     | GBOk j => hd_error (sem cx c' fuel g (j, caps0)) | _ => None end).
+  { intros c' Hna Hw' Hz' Hc'. rewrite <- try_alt_const by auto. destruct c'; try reflexivity. exfalso. eapply Hna; eauto. }
+  destruct c; try (apply Hgen; auto; intros es' He; discriminate).
+  rename es into es0. unfold lb_found. destruct es0 as [|x r].
+  - cbn [min_size]. destruct (goback cx ix _ ix); reflexivity.
+  - rewrite const_alt_eq in Hc. apply const_alts_true in Hc as (Hcx & Hmin & Hall).
+    rewrite min_alt_eq, Hmin. rewrite wfe_alt in Hw. rewrite zok_alt in Hz.
+    assert (Hall' : forall y, In y (x :: r) -> const_size y = true /\ min_size y = min_size x).
+    { intros y [<-|Hy]; auto. }
+    clear Hall Hmin Hcx. set (n := min_size x) in *. clearbody n.
+    assert (Hfail : forall l g0, wfe_list l -> zok_list l -> (forall y, In y l -> const_size y = true /\ min_size y = n) ->
+              (fix go (g1 : nat) (l0 : list expr) : option sst :=
+                 match l0 with
+                 | [] => None
+                 | x0 :: r0 =>
+                     match first_some (fun j => first_ending (sem cx x0 fuel g1 (j, caps0)) ix) (backs cx ix ix) with
+                     | Some s => Some s
+                     | None => go (g1 + ngroups x0) r0
+                     end
+                 end) g0 l =
+              match goback cx ix n ix with
+              | GBOk j => hd_error (sem_alts cx fuel g0 l (j, caps0))
+              | _ => None
+              end).
+    { induction l as [|y l IH]; intros g0 Hwl Hzl Hal.
+      - destruct (goback cx ix n ix); reflexivity.
+      - destruct Hwl as [Hwy Hwl]. destruct Hzl as [Hzy Hzl]. destruct (Hal y (or_introl eq_refl)) as [Hcy Hmy].
+        rewrite try_alt_const by auto. rewrite Hmy. rewrite IH by (auto; intros; apply Hal; right; auto).
+        cbn [sem_alts]. destruct (goback cx ix n ix); auto.
+        destruct (sem cx y fuel g0 (ix0, caps0)); reflexivity. }
+    rewrite (Hfail (x :: r) g Hw Hz Hall'). destruct (goback cx ix n ix); auto. now rewrite sem_alt_eq.
+Qed.
+
+(* what the body of a look-around contributes, as a function of the state at the look-around *)
+Definition la_f (la : lookkind) (x : expr) (gx : nat) (st : sst) : list sst :=
+  match la with
+  | LookBehind | LookBehindNeg =>
+      match goback cx (fst st) (min_size x) (fst st) with
+      | GBOk j => sem cx x fuel gx (j, snd st)
+      | _ => []
+      end
+  | _ => sem cx x fuel gx st
+  end.
+
+Lemma sem_la_eq c la g st : wfe c -> zok c -> st_ok cs st ->
+  (match la with LookBehind | LookBehindNeg => const_size c = true | _ => True end) ->
+  sem cx (LookAround c la) fuel g st =
+  match la with
+  | LookAhead | LookBehind => map (fun s' => (fst st, snd s')) (firstn 1 (la_f la c g st))
+  | _ => match la_f la c g st with [] => [st] | _ => [] end
+  end.
+Proof.
+  intros Hw Hz Hok Hc. destruct st as [ix caps0]. destruct la; cbn [la_f fst snd].
+  - reflexivity.
+  - reflexivity.
+  - rewrite sem_lb, lb_found_const by auto. destruct (goback cx ix (min_size c) ix); auto.
+    destruct (sem cx c fuel g (ix0, caps0)); reflexivity.
+  - rewrite sem_lbn, lb_found_const by auto. destruct (goback cx ix (min_size c) ix); auto.
+    destruct (sem cx c fuel g (ix0, caps0)); reflexivity.
+Qed.
+
 End CC.
